@@ -81,7 +81,7 @@ theorem command_restores (w : World) (t : FdTable) (k : Kind) (rs : List Redir) 
   have hu := undo_restores worldOracle w t rs hw
   unfold runCommand
   cases k with
-  | empty =>
+  | empty | assign =>
     simp only
     split
     · exact ⟨rfl, fun _ => rfl⟩
@@ -112,10 +112,10 @@ theorem command_restores (w : World) (t : FdTable) (k : Kind) (rs : List Redir) 
         split
         · next heq => rw [heq]; exact hfree.symm
         · next hne => exact hframe fd' hne
-  | special | colon | regular | func | brace | notFound | paren =>
+  | special | colon | regular | func | brace | notFound | paren | funcRet | external | execBadOption =>
     simp only
     cases he : (performRedirs worldOracle w t rs).err with
-    | none => first | exact hu | (simp only; exact hu)
+    | none => first | exact hu | (simp only; exact hu) | (simp only [endOrGoOn_t]; exact hu)
     | some e => simp only; split <;> simp only [endOrGoOn_t] <;> exact hu
 
 /-- ★ "redirections on `exec` persist": for `exec` and `command exec`, without operand or with an
